@@ -118,6 +118,8 @@ def run_check(prop, args, seed, t_start):
         return do_replay(prop, args.replay)
 
     tier = args.tier
+    findings, fixed = load_known_findings()
+    my_findings = [f for f in findings if f['property'] == prop]
     v = build()
     contracts = [c for c in v.reg.contracts.values() if prop in c.serves]
     if args.only:
@@ -162,12 +164,30 @@ def run_check(prop, args, seed, t_start):
             print('%-8s %-6s %6.2fs %s' % (o.verdict, o.backend, o.time, o.oid))
 
     # ---- 3. counterexamples: replay on the real code ----------------------------------------------
-    findings, fixed = load_known_findings()
-    my_findings = [f for f in findings if f['property'] == prop]
     violations = []        # dicts: obligation, replay path, reproduced
     undecided = []
+    shutil.rmtree(os.path.join(ROOT, 'replays', prop), ignore_errors=True)
     os.makedirs(os.path.join(ROOT, 'replays', prop), exist_ok=True)
     cjson = {c.name: contract_to_json(c) for c in contracts}
+    # ---- bounded stand-in (run first: its concrete failing inputs also serve as witnesses for refuted obligations) ----
+    bounded = None
+    if info.get('bounded') and not args.no_bounded:
+        bounded = run_native(info['bounded'], {'property': prop, 'tier': tier, 'seed': seed,
+                                               'contracts': cjson, 'known': my_findings},
+                             info.get('bounded_timeout', {}).get(tier, 1500))
+    witness_map = info.get('witness_map', {})
+
+    def bounded_witness(func):
+        """a concrete failing input found by the bounded layer for the function a refuted obligation belongs to"""
+        if not bounded or bounded.get('error'):
+            return None
+        prefixes = [pref for f, pref in witness_map.items() if func.startswith(f)]
+        for bv in bounded.get('violations', []):
+            if bv.get('function') and func.startswith(bv['function']):
+                return bv
+            if any(str(bv.get('key', '')).startswith(pref) for pref in prefixes):
+                return bv
+        return None
     to_replay = refuted + [o for o in unknown if getattr(o, 'candidate', False)]
     seen_base = {}
     for o in to_replay:
@@ -179,6 +199,12 @@ def run_check(prop, args, seed, t_start):
         if cname in cjson and not args.no_bounded:
             rep = run_native('replay.py', {'contract': cjson[cname], 'model': o.model or {}, 'obligation': o.oid,
                                            'note': o.note, 'seed': seed, 'tier': tier}, 300)
+        if not rep.get('reproduced'):
+            bw = bounded_witness(o.func)
+            if bw is not None:
+                rep = {'reproduced': True, 'input': bw.get('input'), 'observed': bw.get('what'), 'expected': bw.get('expected'),
+                       'detail': 'the solver model is not a complete input (loop cut / object state); the bounded refuter found this '
+                                 'concrete input on which the real %s violates the property (%s)' % (o.func, bw.get('key'))}
         seen_base[b] = dict(rep, obligation=o)
     for b, rep in seen_base.items():
         o = rep['obligation']
@@ -197,12 +223,8 @@ def run_check(prop, args, seed, t_start):
         if not getattr(o, 'candidate', False):
             undecided.append({'obligation': o.oid, 'reason': o.reason[:200]})
 
-    # ---- 4. bounded stand-in ------------------------------------------------------------------------
-    bounded = None
-    if info.get('bounded') and not args.no_bounded:
-        bounded = run_native(info['bounded'], {'property': prop, 'tier': tier, 'seed': seed,
-                                               'contracts': cjson, 'known': my_findings},
-                             info.get('bounded_timeout', {}).get(tier, 1500))
+    # ---- 4. bounded stand-in: report ---------------------------------------------------------------------
+    if bounded is not None:
         if bounded.get('error'):
             print('CHECKER-ERROR property=%s bounded layer failed: %s %s' % (prop, bounded.get('error'), bounded.get('_stderr', '')[-800:]))
             write_evidence(prop, tier, seed, info, funcs, obs, ground, syntactic, unsupported, bounded, violations, t_start, n_oblig, n_disch, contracts)
